@@ -900,6 +900,14 @@ func (e *SpecEnv) evalCall(x *ECall) SV {
 				return e.evalStrKey(x) // ext_kviter.go
 			case "kvsub":
 				return e.evalKvSub(x) // ext_kviter.go
+			case "kvstr":
+				// T-KV: kvstr(s): value id of the byte string held by the Go string s (ext_kvstr.go)
+				v := e.eval(x.Args[0])
+				if fc.tc.sortOfSV(v) != "Str" {
+					e.fail("kvstr of %s", v.typ)
+				}
+				fc.eng.declareUF(fc, "kvstr", []string{"Str"}, "Int")
+				return SV{t: app("kvstr", v.t), typ: mathInt}
 			case "kvkey", "kvval":
 				// T-KV: kvkey(s) / kvval(s): abstract identity of the byte string held by s (slice or array), used as key /
 				// value of a key-value store. Uninterpreted function of (block, offset, length) exactly like bigbytes, i.e. any
@@ -924,7 +932,7 @@ func (e *SpecEnv) evalCall(x *ECall) SV {
 				return SV{t: app("select", fc.comp(e.cur, k, s), sarr(v.t)), typ: types.NewArray(types.Typ[types.Uint8], 0)}
 			case "int", "uint64", "uint32", "uint16", "uint8", "byte", "int64", "int32", "uint", "mathint":
 				return SV{t: e.eval(x.Args[0]).t, typ: mathInt}
-			case "blen", "sub", "strseq", "bytestr":
+			case "blen", "sub", "strseq", "bytestr", "stralgebra", "noaxioms":
 				// T-BYTES algebra (ext_bytesalgebra.go); a spec function of the same name takes precedence
 				if e.lookupSpecFn(id.Name) == nil {
 					if v, ok := e.evalAlgebraBuiltin(id.Name, x.Args); ok {
@@ -1087,6 +1095,9 @@ func (e *SpecEnv) applySpecFn(sf *SpecFn, argExprs []Expr) SV {
 		ret := n.resolveType(sf.Ret)
 		var sorts, ts []string
 		for i, a := range args {
+			if isNilType(a.typ) {
+				a = n.vars[sf.Params[i].Name] // a literal nil argument: the typed zero value (a nil slice is (content, 0, 0), not a pointer)
+			}
 			ss, tt := e.uninterpArg(a, n.resolveType(sf.Params[i].Type)) // slices of leaf elements: (block content, offset, length), see ext_c34.go
 			sorts = append(sorts, ss...)
 			ts = append(ts, tt...)
@@ -1094,7 +1105,15 @@ func (e *SpecEnv) applySpecFn(sf *SpecFn, argExprs []Expr) SV {
 		if len(sf.Reads) > 0 {
 			// `reads` clause: the listed heap components (of the state the call is evaluated in) are extra arguments
 			rs, rt := e.readsArgs(sf, &n)
-			e.readsFrame("sf_"+mangle(sf.Pkg+"_"+sf.Name), e.fc.tc.sortOf(ret), rs, rt, func(ent *SpecEnv) []string { _, t0 := ent.readsArgs(sf, &n); return t0 }, sorts, args)
+			e.readsFrameArgs("sf_"+mangle(sf.Pkg+"_"+sf.Name), e.fc.tc.sortOf(ret), rs, rt, func(ent *SpecEnv) []string { _, t0 := ent.readsArgs(sf, &n); return t0 }, sorts, args,
+				func(env *SpecEnv) []string { // the actual arguments as rendered in state env.cur (slices: block content, offset, length)
+					var out []string
+					for i, a := range args {
+						_, tt := env.uninterpArg(a, n.resolveType(sf.Params[i].Type))
+						out = append(out, tt...)
+					}
+					return out
+				})
 			sorts, ts = append(rs, sorts...), append(rt, ts...)
 		}
 		name := "sf_" + mangle(sf.Pkg+"_"+sf.Name)
